@@ -188,19 +188,21 @@ impl UserPrmDataType {
                 s[..1].copy_from_slice(&i8::try_from(value)?.to_be_bytes());
             }
             UserPrmDataType::Signed16 => {
-                s[..2].copy_from_slice(&u16::try_from(value)?.to_be_bytes());
+                s[..2].copy_from_slice(&i16::try_from(value)?.to_be_bytes());
             }
             UserPrmDataType::Signed32 => {
                 s[..4].copy_from_slice(&i32::try_from(value)?.to_be_bytes());
             }
             UserPrmDataType::Bit(b) => {
-                if value != 0 && value != 1 {
+                if (value != 0 && value != 1) || b > 7 {
                     return Err(PrmValueRangeError(()));
                 }
-                assert!(value == 0 || value == 1);
-                s[0] |= u8::try_from(value)? << b;
+                s[0] = (s[0] & !(1 << b)) | (u8::try_from(value)? << b);
             }
             UserPrmDataType::BitArea(first, last) => {
+                if last < first || last > 7 {
+                    return Err(PrmValueRangeError(()));
+                }
                 let bit_size = last - first + 1;
                 if value < 0 || value >= 2i64.pow(u32::from(bit_size)) {
                     return Err(PrmValueRangeError(()));
